@@ -13,6 +13,7 @@ import (
 	"runtime"
 	"strings"
 	"sync"
+	"sync/atomic"
 	"time"
 
 	"github.com/gookit/rux"
@@ -523,6 +524,7 @@ func serveStress(s *Summary, rng *rand.Rand, n int, out *traceWriter) {
 		}
 		workers := 2 + rng.Intn(7)
 		per := 150 + rng.Intn(150)
+		var finished int64 // requests that have returned: the watchdog below reports when none does for a long time
 		var wg sync.WaitGroup
 		var mu sync.Mutex
 		bad := []string{}
@@ -577,6 +579,7 @@ func serveStress(s *Summary, rng *rand.Rand, n int, out *traceWriter) {
 						}()
 						r.ServeHTTP(rec, req)
 					}()
+					atomic.AddInt64(&finished, 1)
 					got, par := rl.log, rl.param
 					if wr.Intn(4) == 0 || kind == "rd" || kind == "o" {
 						rl.bg.Wait()
@@ -628,7 +631,28 @@ func serveStress(s *Summary, rng *rand.Rand, n int, out *traceWriter) {
 				}
 			}(w)
 		}
-		wg.Wait()
+		// every request returns: when no request has returned for 20 s while requests are outstanding, the router is stuck
+		// (requests blocking each other for ever are not independent of each other); the blocked goroutines are left behind
+		allDone := make(chan struct{})
+		go func() { wg.Wait(); close(allDone) }()
+		last, idle := int64(-1), 0
+	waiting:
+		for {
+			select {
+			case <-allDone:
+				break waiting
+			case <-time.After(2 * time.Second):
+				if now := atomic.LoadInt64(&finished); now != last {
+					last, idle = now, 0
+				} else if idle++; idle >= 10 {
+					s.mismatch(map[string]any{"kind": "serve", "aspect": "interference", "shape": sh, "cache": cacheCap,
+						"what": fmt.Sprintf("under %d concurrent workers (global/route mw %v, cache %d): no request has returned for 20 s, %d of %d have been served: the requests block each other",
+							workers, sh, cacheCap, now, workers*per)}, map[string]any{"shape": sh})
+					s.Cases++
+					return
+				}
+			}
+		}
 		if cacheCap >= 0 {
 			// burst of concurrent lookups of a few cached dynamic paths (hits, misses and evictions racing)
 			for w := 0; w < 8; w++ {
